@@ -242,7 +242,7 @@ func (x *Exec) step(st *State, ins ssa.Instruction) {
 		f.env[t] = x.makeIface(st, v, t.X.Type(), t.Type())
 	case *ssa.ChangeInterface:
 		v := x.operand(st, t.X)
-		f.env[t] = Val{T: v.T, Ty: t.Type()}
+		f.env[t] = Val{T: v.T, Ty: t.Type(), Inner: v.Inner}
 	case *ssa.ChangeType:
 		v := x.operand(st, t.X)
 		nv := v
@@ -465,7 +465,8 @@ func (x *Exec) makeIface(st *State, v Val, from types.Type, to types.Type) Val {
 	}
 	c := x.freshConst(st, "iface", "Iface")
 	st.assume(eq(c, fmt.Sprintf("(mk_iface %d %s)", tag, payload)))
-	return Val{T: c, Ty: to}
+	inner := v
+	return Val{T: c, Ty: to, Inner: &inner}
 }
 
 func (x *Exec) typeAssert(st *State, t *ssa.TypeAssert) {
